@@ -195,9 +195,36 @@ static void rchain(S&& s, const std::vector<ItemV>& items, std::size_t i, std::s
     insert_one(std::move(s), items[i], [&](auto&& next) { rchain(std::move(next), items, i + 1, n, done); });
 }
 
-template <typename L, sl Sev>
-static void statement(const char* tag, const std::vector<ItemV>& items, const std::string& named)
+// runs f from a destructor while an exception is propagating (a scope guard that logs during stack unwinding)
+template <typename F>
+struct RunsOnUnwind
 {
+    F f;
+    ~RunsOnUnwind()
+    {
+        f();
+    }
+};
+
+template <typename L, sl Sev>
+static void statement(const char* tag, const std::vector<ItemV>& items, const std::string& named0)
+{
+    if (!named0.empty() && named0[0] == 'u')
+    {
+        // the same statement, executed while the stack is being unwound
+        std::string inner = named0.substr(1);
+        auto body = [&] { statement<L, Sev>(tag, items, inner); };
+        try
+        {
+            RunsOnUnwind<decltype(body)> guard{ body };
+            throw 42;
+        }
+        catch (int)
+        {
+        }
+        return;
+    }
+    const std::string& named = named0;
     auto make = [&]() {
         if constexpr (Sev == sl::trace)
             return L::trace(tag);
